@@ -749,7 +749,14 @@ def _build(spec, model=None, holder=None, order_seed=None, codes=None, ckey_map=
                     pass        # declared together with the sector (see the declaration steps)
                 elif hs['portfolio'] == 'share' and bs:
                     # three assets through the library's weighting helper: deposits, bonds, money as the residual
-                    hh.GenerateAssetWeighting({'DEP': repr(hs['share'] * 0.5), 'BOND': repr(bs)}, 'MON')
+                    if hs.get('weights_as_numbers_then_shifted'):
+                        # weights handed over as Python numbers; later a portfolio-shift experiment overrides one of them with a path
+                        hh.GenerateAssetWeighting({'DEP': hs['share'] * 0.5, 'BOND': bs}, 'MON')
+                        w0 = hs['share'] * 0.5
+                        hh.SetExogenous('WGT_DEP', [w0, w0] + [w0 + 0.125] * (spec['maxtime'] + 2))
+                        b.weights_shifted = getattr(b, 'weights_shifted', 0) + 1
+                    else:
+                        hh.GenerateAssetWeighting({'DEP': repr(hs['share'] * 0.5), 'BOND': repr(bs)}, 'MON')
                 elif hs['portfolio'] == 'share':
                     if hs['share'] == 0.5:
                         # the holder declares the lag of its own deposit holding itself (as a portfolio rule built on
